@@ -357,6 +357,10 @@ class ProtocolContext:
             self._lock.release()
             return
 
+        if not isinstance(self._state, IsInIdle):  # e.g. connection lost since queued
+            self._lock.release()
+            return
+
         while True:
             try:
                 *_, self._cmd, self._qos, self._fut = self._que.get_nowait()
